@@ -21,6 +21,8 @@ type C08AParams struct {
 	PreDelay  time.Duration `json:"pre_delay"`  // time between creating the context and issuing the call
 	Transit   time.Duration `json:"transit"`    // transit time of the request
 	BusyFor   time.Duration `json:"busy_for,omitempty"` // >0 (unary only): all eight unary workers of the connection are busy for this long when the request arrives
+	MDTimeout string        `json:"md_timeout,omitempty"` // the caller's outgoing metadata carries a grpc-timeout entry of its own (a relay forwarding the metadata it received): it says nothing about this caller's deadline
+	MDKey     string        `json:"md_key,omitempty"`
 }
 
 var c08Timeouts = []time.Duration{
@@ -50,6 +52,10 @@ func genC08A(g *rand.Rand, tier string) any {
 	if p.Kind == KUnary && g.IntN(4) == 0 {
 		p.BusyFor = time.Duration(1+g.Int64N(int64(5*time.Second)))
 	}
+	if g.IntN(5) == 0 {
+		p.MDTimeout = []string{"250m", "1S", "10H", "1999m", "5n"}[g.IntN(5)]
+		p.MDKey = []string{"grpc-timeout", "GRPC-Timeout", "Grpc-Timeout"}[g.IntN(3)]
+	}
 	switch g.IntN(3) {
 	case 0:
 		p.Transit = 0
@@ -69,6 +75,10 @@ func execC08A(e *Env, pp any) {
 		c.CSendN = 1
 		c.CProg = []Op{{K: 'f', A: []Op{{K: 's'}, {K: 'c'}}, B: []Op{{K: 'R'}}}}
 		c.HProg = []Op{{K: 'R'}}
+	}
+	if p.MDTimeout != "" {
+		c.ReqMD = map[string][]string{p.MDKey: {p.MDTimeout}}
+		e.Note("md.grpc-timeout")
 	}
 	r := sim.Add(c)
 	srv := sim.NewServer()
